@@ -12,6 +12,7 @@ FIXES = [
     ("C13", "fix: a LazyList whose items are already cached is truthy", "bool(L) pulled a new item instead of looking at the cache: source [0], history [bool, bool] gave False"),
     ("C13", "fix: LazyList slices stop at the end", "L[a:b] wrapped around: source [0], history [s[0:5]] gave [0,0,0,0,0]; source [] gave zeros"),
     ("C13", "fix: LazyList slices with a negative step", "L[::-1] returned one item / raised ValueError in islice: source [0,0], history [s[::-1]] gave [0]"),
+    ("C13", "fix: reversing a copied lazy list", "reversed() on a deep_copy (tee-backed) left the cursor behind: source [1], a copy, history [reversed, count1] counted the item twice; len() was 2n"),
     ("C20", "fix: drop the unreachable element-table entry for x", "element-table key x was shadowed by the recurse statement (parse(tokenise('x')) is a RecurseStatement): unreachable entry removed"),
     ("C20", "fix: documented arity of İ", "documented arity of İ (1) and Ṡ (0) differed from the table arity (2 and 1)"),
     ("C05", "fix: decimal literals push exactly", "decimal literals went through sympy.nsimplify(str): 0.333333333333333 -> 1/3, 1.4142135623730951 -> sqrt(2), 0.051 -> product of fractional prime powers, 0.11111111 -> 1/9"),
